@@ -779,6 +779,9 @@ func (t *FnTrans) findLoops() {
 					if _, isDbg := in.(*ssa.DebugRef); isDbg {
 						continue
 					}
+					if _, isPhi := in.(*ssa.Phi); isPhi {
+						continue // a phi carries the position of the variable's declaration
+					}
 					if !p.IsValid() {
 						continue
 					}
@@ -1433,6 +1436,26 @@ func (t *FnTrans) escapeAnalysis() {
 			return root(a.X, depth+1)
 		case *ssa.ChangeType:
 			return root(a.X, depth+1)
+		case *ssa.Phi:
+			// a phi of one allocation and nil constants aliases that allocation
+			var only ssa.Value
+			for _, e := range a.Edges {
+				if c, ok := e.(*ssa.Const); ok && c.Value == nil {
+					continue
+				}
+				if e == v {
+					continue
+				}
+				r := root(e, depth+1)
+				if r == nil {
+					return nil
+				}
+				if only != nil && only != r {
+					return nil
+				}
+				only = r
+			}
+			return only
 		}
 		return nil
 	}
@@ -1514,8 +1537,11 @@ func (t *FnTrans) escapeAnalysis() {
 			case *ssa.MakeInterface:
 				mark(x.X)
 			case *ssa.Phi:
-				for _, e := range x.Edges {
-					mark(e)
+				if root(x, 0) == nil {
+					// merges different objects: give up on all of them
+					for _, e := range x.Edges {
+						mark(e)
+					}
 				}
 			case *ssa.Send:
 				mark(x.X)
